@@ -1,7 +1,9 @@
-CONSTANTS MaxEdits = 1
+CONSTANTS MaxEdits = 2
+ Flaw_DirNames = FALSE
  Flaw_Paths = FALSE
  Flaw_NoOutput = FALSE
- Shape = 0
+ Flaw_Args = FALSE
+ Shape = 3
  Menu = "all"
  EmitAll = FALSE
 SPECIFICATION Spec
